@@ -108,7 +108,19 @@ def run(an: Analysis, rep):
     rep.rule("R06.4", "index assignment without override depends on first use only", 3)
     from .common import purity
     rep.run(purity, an, rep, "R06.P", ["normalize", "to_code", "from_code"])
+    from .common import SharedRules as _SR6
+    from . import c01 as _c01f, c08 as _c08e, c11 as _c11f
+    from sa.analysis import VERSIONS as _V6
+    shf6 = _SR6(rep, "R06.F", "every flag the decoder took into the data is written back exactly when its datum is set (shared with C11's R11.3): a flag dropped by to_code() for some kind of "
+                              "code comes back False from the next from_code, so the normal form is not stable under a to_code / from_code trip")
+    for V in _V6:
+        rep.run(_c11f.r113, an, shf6, V, _c01f._dispositions(an, V)[0])
+    she6 = _SR6(rep, "R06.E", "equality of the data (what 'normalize(...) == n' means) is equality of one key that identifies all NaNs (shared with C08's R08.2 / R08.4): from_json_data builds a "
+                              "new NaN object, a comparison that looks at the float itself makes the re-loaded normal form unequal to the original")
+    rep.run(_c08e.r082, an, she6)
+    rep.run(_c08e.r084, an, she6)
     rep.run(reset_rules, an, rep)
+    rep.run(r06n, an, rep)
     fn, p, arms, fall_identity = parse_normalize(an)
     dcs, has_priv, reach = classes_with_private_reach(an)
     # R06.3: projection - every arm's result is built only from resets, recursion on the same field, or untouched public fields
@@ -242,3 +254,114 @@ def r064(an, rep):
 
 def _mentions(node, name):
     return any(isinstance(n, ast.Name) and n.id == name for n in ast.walk(node))
+
+
+def r06n(an: Analysis, rep, rule="R06.N"):
+    """normalize folded over a witness CodeData in which every private field of every class of the model holds a non-default value, at every
+    place the model allows (operands of every class, a nested code object that is itself full of artefacts, unreferenced entries, a trailing
+    line).  Expected: the same data with every private field at its declared default and every public field untouched - at every depth; and
+    normalize of that result is the result (idempotence on the witness)."""
+    from sa.feval import BlockOutcome, Obj
+    from .c03 import package_evaluator
+    from .normalize_model import find_normalize
+    rep.rule(rule, "normalize folded over witness data full of artefacts: private fields reset at every depth, public fields untouched, idempotent", 2)
+    fn = find_normalize(an)
+    ev, _R = package_evaluator(an, fn.module, (3, 10))
+    L = ev.lib
+
+    def build():
+        inner, inner2 = mk_inner("inner"), mk_inner("second")
+        b0 = (L["Instruction"](name="LOAD_CONST", arg=L["Constant"]((1, (2.0, "x"), frozenset({3})), 3), _n_args_override=2, line_number=5, _line_offsets_override=(1, -1)),
+              L["Instruction"](name="LOAD_NAME", arg=L["Name"]("n", 1), line_number=None),
+              L["Instruction"](name="LOAD_FAST", arg=L["Varname"]("v", 2), line_number=0),
+              L["Instruction"](name="LOAD_CLOSURE", arg=L["Cellvar"]("c", 1), line_number=6),
+              L["Instruction"](name="LOAD_DEREF", arg=L["Freevar"]("f"), line_number=6),
+              L["Instruction"](name="NOP", arg=L["NoArg"](7), line_number=6, _line_offsets_override=(0, 0)),
+              L["Instruction"](name="JUMP_FORWARD", arg=L["Jump"](1, True), _n_args_override=3, line_number=7),
+              L["Instruction"](name="BUILD_TUPLE", arg=300, _n_args_override=4, line_number=7),
+              L["Instruction"](name="LOAD_CONST", arg=L["Constant"](inner, 0), line_number=8),
+              # a nested code object at its natural position (no override on the operand) that is itself full of artefacts
+              L["Instruction"](name="LOAD_CONST", arg=L["Constant"](inner2), line_number=8),
+              L["Instruction"](name="LOAD_NAME", arg=L["Name"]("plain"), line_number=8))
+        b1 = (L["Instruction"](name="RETURN_VALUE", arg=L["NoArg"](0), line_number=9),)
+        return L["CodeData"](blocks=(b0, b1), _additional_args=(L["Name"]("unused", 7), L["Constant"](None, 4), L["Constant"](inner, 5), L["Varname"]("w", 3), L["Cellvar"]("d", 0)),
+                             _additional_line=L["AdditionalLine"](12, (1, 2)), first_line_number=3,
+                             type=L["Function"](args=L["Args"](positional_only=("p",), positional_or_keyword=("a",), var_positional="args", keyword_only=("k",), var_keyword="kw"),
+                                                docstring="doc", type="GENERATOR"),
+                             freevars=("f",), stacksize=2, filename="f.py", name="g", future_annotations=True, _nested=True)
+
+    def mk_inner(name):
+        return L["CodeData"](blocks=((L["Instruction"](name="LOAD_CONST", arg=L["Constant"](None, 1), _n_args_override=2, line_number=2, _line_offsets_override=(0,)),
+                                       L["Instruction"](name="RETURN_VALUE", arg=L["NoArg"](3))),),
+                              _additional_args=(L["Constant"]("never", 0),), _additional_line=L["AdditionalLine"](4, (1,)), first_line_number=2,
+                              type=L["Function"](args=L["Args"](positional_or_keyword=("a",), var_keyword="kw"), docstring=None, type=None),
+                              freevars=("f",), stacksize=1, filename="f.py", name=name, future_annotations=True, _nested=True)
+    from .common import data_classes
+    cls = {c.name: c for c in data_classes(an)}
+
+    def default_of(fl):
+        if fl.default_factory is not None:
+            return ev.ev(ast.Call(func=fl.default_factory, args=[], keywords=[]), {})
+        if fl.default is not None:
+            return ev.ev(fl.default, {})
+        raise AnalysisError(f"private field {fl.name} has no default: 'reset' is not defined for it")
+
+    def strip(v):
+        if isinstance(v, Obj):
+            ci = cls.get(v.get("__cls__"))
+            if ci is None:
+                return v
+            out = Obj({"__cls__": ci.name})
+            for fl in ci.fields:
+                out[fl.name] = default_of(fl) if fl.private else strip(v[fl.name])
+            return out
+        if isinstance(v, tuple):
+            return tuple(strip(x) for x in v)
+        return v
+
+    def diff(a, b, path="x"):
+        if isinstance(a, Obj) or isinstance(b, Obj):
+            if not (isinstance(a, Obj) and isinstance(b, Obj)) or a.get("__cls__") != b.get("__cls__"):
+                return f"{path}: {_show(a)} instead of {_show(b)}"
+            for k in b:
+                if k != "__cls__":
+                    d = diff(a.get(k, "<missing>"), b[k], f"{path}.{k}")
+                    if d:
+                        return d
+            return None
+        if isinstance(a, tuple) and isinstance(b, tuple):
+            if len(a) != len(b):
+                return f"{path}: {len(a)} elements instead of {len(b)}"
+            for i, (x, y) in enumerate(zip(a, b)):
+                d = diff(x, y, f"{path}[{i}]")
+                if d:
+                    return d
+            return None
+        if type(a) is not type(b) or a != b:
+            return f"{path}: {_show(a)} instead of {_show(b)}"
+        return None
+
+    def _show(v):
+        return f"{v.get('__cls__')}(...)" if isinstance(v, Obj) else ascii(v)[:40]
+    try:
+        w = build()
+        want = strip(w)
+        got = ev.call_method(fn.node, w)
+        why = diff(got, want)
+        again = ev.call_method(fn.node, got) if why is None else None
+        why2 = diff(again, want) if why is None else None
+        untouched = diff(w, build())
+    except BlockOutcome as o:
+        why, why2, untouched = f"normalize stops at `{norm_src(o.node)[:60]}`", None, None
+    except AnalysisError:
+        raise
+    except Exception as ex:  # noqa: BLE001 - a gap of the evaluator, never a verdict
+        raise AnalysisError(f"{fn.qual}: not evaluable on the witness data ({type(ex).__name__}: {ex})")
+    rep.add(rule, f"{fn.qual}::witness data full of artefacts", why is None and not untouched, loc(fn.module, fn.node),
+            "every private field at every depth (operands, nested code object, its operands) comes back at its default, every public field as given; the argument is not changed"
+            if why is None and not untouched else
+            (f"normalize of the witness gives {why} (expected: the witness with every private field at its declared default and nothing else changed)" if why else
+             f"normalize changed its argument: {untouched}"))
+    if why is None:
+        rep.add(rule, f"{fn.qual}::idempotent on the witness", why2 is None, loc(fn.module, fn.node),
+                "normalize(normalize(w)) is normalize(w)" if why2 is None else f"normalizing the result again gives {why2}")
